@@ -44,6 +44,11 @@ def make_spec(d, form):
                     {"id": "tag:xf", "kind": "ext_body", "n": 2}, {"id": "XV", "kind": "ext_var", "n": 2}]}
 
 
+def api_ctx():
+    import dds._api as api
+    return api._eval_ctx
+
+
 def one(world, d, k, n_accept, form, order="plain"):
     spec = make_spec(d, form)
     probs = []
@@ -111,6 +116,28 @@ def one(world, d, k, n_accept, form, order="plain"):
                 bad("non_accepted_datafn_unnamed", f"the error does not name the module: {str(e)[:160]}")
             if pl.cur:
                 bad("non_accepted_datafn_ran", f"user code ran: {pl.cur}")
+        # a lambda kept (at top level) by a function of the non-accepted module: a data function without a name
+        import os
+        import sys
+        with open(os.path.join(os.path.dirname(xm.__file__), "lamk.py"), "w") as f:
+            f.write("import dds\nRAN = []\n\n\ndef helper():\n    RAN.append(1)\n    return 1\n\n\n"
+                    "def kept_lambda():\n    return dds.keep('/x/lam', lambda: helper() * 10)\n")
+        importlib.invalidate_caches()
+        lm = importlib.import_module(prog.xpkg + ".lamk")
+        try:
+            v = lm.kept_lambda()
+            bad("non_accepted_datafn_evaluated|lambda", f"a lambda of the non-accepted module {prog.xpkg}.lamk given to dds.keep was evaluated untracked and returned {v!r}")
+        except BaseException as e:  # noqa
+            if not core.is_dds_exc(e):
+                bad(f"non_accepted_datafn_error|lambda|{type(e).__name__}", f"raised {type(e).__name__}: {str(e)[:100]} instead of a DDS error")
+            elif prog.xpkg not in str(e):
+                bad("non_accepted_datafn_unnamed|lambda", f"the error does not name the module: {str(e)[:160]}")
+            if lm.RAN:
+                bad("non_accepted_datafn_ran|lambda", "user code ran")
+        finally:
+            sys.modules.pop(prog.xpkg + ".lamk", None)
+        if api_ctx() is not None:
+            bad("context_leaked|lambda", "dds still believes an evaluation is running after the refusal")
         # the same data function reached from inside an accepted pipeline
         rx, refx = prog.run("eval_rootx")
         if rx.status == "ok":
